@@ -941,3 +941,92 @@ def facade_busy(ctx, rule="R-FACADE-BUSY"):
         ctx.violated(rule, f, "WAIT_QUERY case", "requests arriving while the facade is querying are not routed to a busy answer", f.node)
     else:
         ctx.holds(rule, "no application callback is reachable while waiting for respond()")
+
+
+def forward_names(ctx, rule="R-FORWARD-NAMES", classes=None):
+    """a method that forwards to the same-named method of a component passes each of its parameters to the
+    callee parameter of the same name (argument-selection defects between adjacent same-typed parameters)"""
+    P = ctx.prog
+    n = 0
+    for fn in P.all_funcs():
+        if fn.cls is None or (classes and fn.cls.name not in classes):
+            continue
+        for sc in ctx.cg.sites.get(fn.qual, []):
+            if mname(sc.sym) != fn.name or sc.sym[1][0] != "attr" or sc.sym[1][1] == SELF:
+                continue
+            for t in sc.targets:
+                impl = _unwrap_forwarder(ctx, t)
+                if impl is None:
+                    continue
+                shared = [p for p in fn.params if p in impl.params]
+                if len(shared) < 2:
+                    continue
+                b = bind_args(sc.sym, impl)
+                n += 1
+                bad = [(k, v[1]) for k, v in b.items() if v[0] == "p" and v[1] in impl.params and v[1] != k]
+                missing = [p for p in shared if b.get(p) is None and p not in impl.defaults]
+                inst = "%s.%s forwards its parameters to %s.%s by name" % (fn.cls.name, fn.name, impl.cls.name if impl.cls else "?", impl.name)
+                if bad:
+                    ctx.violated(rule, fn, inst, "parameter %s is passed as the callee's `%s`%s" % (
+                        bad[0][1], bad[0][0], " (and %s as `%s`)" % (bad[1][1], bad[1][0]) if len(bad) > 1 else ""), sc.node)
+                else:
+                    ctx.holds(rule, inst)
+    return n
+
+
+def _unwrap_forwarder(ctx, t):
+    """follow `def f(self, *args, **kwargs): ... self._f(*args, **kwargs)` to the implementation"""
+    seen = 0
+    while t.vararg and t.kwarg and not t.params and seen < 3:
+        seen += 1
+        nxt = None
+        for node in ast.walk(t.node):
+            if isinstance(node, ast.Call) and isinstance(node.func, ast.Attribute) and isinstance(node.func.value, ast.Name) \
+                    and node.func.value.id == "self" and any(isinstance(a, ast.Starred) for a in node.args) and t.cls is not None:
+                nxt = ctx.prog.find_method(t.cls, node.func.attr)
+        if nxt is None:
+            return None
+        t = nxt
+    return t
+
+
+def queue_typestate(ctx, rule="R-QUEUE-TYPESTATE"):
+    """producer/consumer agreement on the server's data queue: respond() consumes only in WAIT_FOR_DM16 (a write);
+    every put must be confined to the write transaction too, otherwise stale items wait for the next write"""
+    P = ctx.prog
+    wf = enumv(ctx, "ResponseState", "WAIT_FOR_DM16")
+    wr = ("c", P.resolve_chain(["Command", "WRITE", "value"], None))
+    DQ = ("attr", field("data_queue"), "put")
+    st_w = mk_cmp("==", field("state"), wf)
+    cmd_w = mk_cmp("==", field("command"), wr)
+    # consumer
+    rp = P.func(S, "respond")
+    n = 0
+    for r in runs(ctx, rp):
+        for i, e in r.effects():
+            if e.kind == "call" and e.value[1] == ("attr", field("data_queue"), "get"):
+                n += 1
+                if G.implies(G.conj(r.guards(i)), st_w)[0]:
+                    ctx.holds(rule, "respond() takes written data from the queue only in WAIT_FOR_DM16")
+                else:
+                    ctx.violated(rule, rp, "respond() consumes only in WAIT_FOR_DM16", "the data queue is read outside the write transaction", e.node)
+    # WAIT_FOR_DM16 is entered only for a write
+    for fn in P.cls(S).methods.values():
+        for r in runs(ctx, fn):
+            for i, e in r.effects():
+                if e.kind == "store" and e.target == field("state") and e.value == wf:
+                    if G.implies(G.conj(r.guards(i)), cmd_w)[0]:
+                        ctx.holds(rule, "WAIT_FOR_DM16 is entered only for command WRITE")
+                    else:
+                        ctx.violated(rule, fn, "WAIT_FOR_DM16 is entered only for command WRITE", "state stored on a path where the command is not known to be WRITE", e.node)
+                if e.kind == "call" and e.value[1] == DQ:
+                    n += 1
+                    F = G.conj(r.guards(i))
+                    inst = "%s.%s: put into the data queue is confined to the write transaction" % (S, fn.name)
+                    if G.implies(F, st_w)[0] or G.implies(F, cmd_w)[0]:
+                        ctx.holds(rule, inst)
+                    else:
+                        ctx.violated(rule, fn, inst, "the callback also runs for the end-of-message acknowledge of a multi-packet read and queues its "
+                                     "payload; nothing consumes it, so the next write hands the application these stale bytes", e.node)
+    if n < 2:
+        ctx.unknown(rule, "queue operations not found (%d)" % n)
